@@ -277,6 +277,8 @@ class State:
         self.regions = {}  # name -> Lin size in bytes
         self.exc_set = False
         self.path = []  # human readable branch decisions
+        self.freed = set()  # regions passed to free()
+        self.freed_fields = {}  # field of self passed to free() -> the value it held then
 
     def copy(self):
         s = State()
@@ -286,6 +288,8 @@ class State:
         s.regions = dict(self.regions)
         s.exc_set = self.exc_set
         s.path = list(self.path)
+        s.freed = set(self.freed)
+        s.freed_fields = dict(self.freed_fields)
         return s
 
 
@@ -375,6 +379,8 @@ class CAnalysis:
             self.ob("R1", node, what, False, f"{access}: unknown region {ptr.region}", st)
             return
         problems = []
+        if ptr.region in st.freed:
+            problems.append(f"{ptr.region} was passed to free() earlier on this path (use after free)")
         if ptr.nullable:
             problems.append("pointer may be NULL (allocation result not checked)")
         if not st.store.entails_le(0, n):
@@ -738,6 +744,15 @@ class CAnalysis:
             self.ob("R4", node or {}, what, st.exc_set, "error return without a Python exception set", st)
             if self.raise_summary is not None and st.exc_set:
                 pass
+        # no field of the object keeps pointing into storage that was freed on this path (the object outlives the call
+        # unless this is its deallocator)
+        if st.freed_fields and not fnname.split(">")[-1].endswith("_dealloc"):
+            # free(self->X) on storage the analysis does not track (the object's previous storage on re-initialisation)
+            stale = sorted(k for k, v0 in st.freed_fields.items() if st.fields.get(k) is v0)
+            self.ob("R1", node or {}, f"return after free(self->field) [{self._err_site(node, st) if node else 'end'}]", not stale, f"self->{', self->'.join(stale)} was freed and not replaced before this exit: the object keeps a dangling pointer (use after free / double free at dealloc)", st)
+        if st.freed and not fnname.split(">")[-1].endswith("_dealloc"):
+            dangling = sorted(k for k, fv in st.fields.items() if isinstance(fv, Ptr) and fv.region in st.freed)
+            self.ob("R1", node or {}, f"return with freed storage [{self._err_site(node, st) if node else 'end'}]", not dangling, f"self->{', self->'.join(dangling)} still point(s) into storage passed to free() on this path: every later pull/push/data_slice on the object reads or writes freed heap, and dealloc frees it again", st)
         # object invariant of Buffer-like objects at every exit (the object stays usable)
         if getattr(self, "_buffer_like", False):
             b, p, e = st.fields.get("base"), st.fields.get("pos"), st.fields.get("end")
@@ -1371,7 +1386,16 @@ class CAnalysis:
         return Ptr(reg, 0, nullable=True)
 
     def api_free(self, n, st, args):
-        self.ev(args[0], st)
+        v = self.ev(args[0], st)
+        if isinstance(v, Ptr):
+            if v.region in st.freed:
+                self.ob("R1", n, f"free({ctext(args[0])})", False, "the same allocation is freed twice on this path", st)
+            st.freed.add(v.region)
+        t = strip(args[0])
+        while t.get("kind") in ("CStyleCastExpr", "ParenExpr", "ImplicitCastExpr"):
+            t = strip([c for c in t.get("inner", []) if c][0])
+        if t.get("kind") == "MemberExpr" and ctext(t).startswith("self->"):
+            st.freed_fields[t.get("name")] = st.fields.get(t.get("name"))
         return Opaque("void")
 
     def _extent(self, n, st, pv, nv, what, access):
